@@ -1,7 +1,7 @@
 """C02 - connection lifecycle is well-formed and never hangs under any link fault."""
 import ast
 
-from ..astutil import catches_everything, dotted, handler_names, method_call
+from ..astutil import catches_everything, dotted, effective, handler_names, method_call
 from ..callgraph import CallGraph, fid
 from ..cfg import CFG, cfg_of, fact_key, norm, walk_own, _own_exprs
 from ..locks import regions
@@ -58,8 +58,8 @@ def check(ctx):
     # ---- R1 ------------------------------------------------------------------------
     ol = K.method('open_link')
     g = cfg_of(ol)
-    first = [e.dst for e in g.entry.succ][0]
-    ctx.inst('R1', ol, 'requested-first', first.kind == 'stmt' and norm(first.ast) == 'self.connection_requested.call(%s)' % ol.params[1], 'open_link starts with connection_requested; first statement %s' % first.text())
+    eff = effective(ol.node.body)
+    ctx.inst('R1', ol, 'requested-first', bool(eff) and norm(eff[0]) == 'self.connection_requested.call(%s)' % ol.params[1], 'open_link starts with connection_requested; first statement %s' % (norm(eff[0])[:60] if eff else None))
     tr = [t for t in walk_own(ol.node) if isinstance(t, ast.Try)]
     look = [c for c in walk_own(ol.node) if isinstance(c, ast.Call) and norm(c.func).endswith('get_link_driver')]
     setup = [c for c in walk_own(ol.node) if method_call(c, '_start_connection_setup')]
@@ -98,7 +98,7 @@ def check(ctx):
     reg = [c for c in walk_own(K.method('__init__').node) if method_call(c, 'add_callback') and norm(c.func.value) == 'self.param.all_updated' and [norm(a) for a in c.args] == ['self._all_parameters_updated']]
     ctx.inst('R2', K.method('__init__'), 'fully_connected-on-all-updated', len(reg) == 1, '_all_parameters_updated is registered on param.all_updated')
     ic = K.method('_check_for_initial_packet_cb')
-    body = [norm(s) for s in ic.node.body if not (isinstance(s, ast.Expr) and isinstance(s.value, ast.Constant))]
+    body = [norm(s) for s in effective(ic.node.body)]
     ctx.inst('R2', ic, 'first-packet', body == ['self.state = State.CONNECTED', 'self.link_established.call(self.link_uri)', 'self.packet_received.remove_callback(self._check_for_initial_packet_cb)'],
              'the first packet sets CONNECTED, signals link_established once and unhooks itself; body %s' % body)
 
@@ -115,9 +115,9 @@ def check(ctx):
                 states.append(k[0])
         table.setdefault(tuple(sorted(states)), []).append((n.line, norm(c.func.value).split('.')[-1]))
     got = {k: [x[1] for x in sorted(v)] for k, v in table.items()}
-    want = {('State.INITIALIZED == self.state',): ['connection_failed'],
-            ('self.state == State.CONNECTED or self.state == State.SETUP_FINISHED',): ['disconnected', 'connection_lost'],
-            ('State.DISCONNECTED == self.state',): ['disconnected_link_error']}
+    want = {(fact_key('self.state == State.INITIALIZED')[0],): ['connection_failed'],
+            (fact_key('self.state == State.CONNECTED or self.state == State.SETUP_FINISHED')[0],): ['disconnected', 'connection_lost'],
+            (fact_key('self.state == State.DISCONNECTED')[0],): ['disconnected_link_error']}
     for k, v in want.items():
         ctx.inst('R3', le, 'fan-out:' + k[0][:40], got.get(k) == v, 'in %s a link error must produce %s in that order; found %s' % (k[0], v, got.get(k)))
     ctx.inst('R3', le, 'fan-out-complete', set(got) == set(want), 'states handled: %s' % sorted(got))
